@@ -41,6 +41,12 @@ AcceptElem(e) ==
     IF EscapesOk(e.el) THEN e.res = "ok" /\ e.out = NormElem(e.el, e.plus)
     ELSE IsErr(e, IF e.plus THEN "MalformedQueryString" ELSE "InvalidURIPath", 400)
 
+\* the same known deviation seen through the path-component function
+KnownElem(e) ==
+    /\ ~e.plus /\ (\E i \in 1..Len(e.el) : e.el[i] = PLUS)
+    /\ IF EscapesOk(e.el) THEN e.res = "ok" /\ e.out = NormElem(e.el, TRUE)
+       ELSE IsErr(e, "InvalidURIPath", 400)
+
 Accept(e) ==
     CASE e.op = "path"  -> AcceptPath(e)
       [] e.op = "query" -> AcceptQuery(e)
@@ -50,6 +56,7 @@ Accept(e) ==
 \* "" when the deviation is not a listed known finding
 KnownId(e) ==
     CASE e.op = "path" /\ KnownPath(e) -> "D7"
+      [] e.op = "elem" /\ KnownElem(e) -> "D7"
       [] OTHER -> ""
 
 Expected(e) ==
